@@ -255,7 +255,8 @@ fn structured<C: Cell>(ctx: &mut WorkerCtx, shard: u64, nshards: u64) {
 }
 
 pub fn worker(ctx: &mut WorkerCtx) {
-    let thorough = ctx.tier == Tier::Thorough;
+    // the complete 16-bit and 32-bit-unary sweeps take about 25 s: both tiers run them
+    let thorough = true;
     let (shard, nshards) = if ctx.only.is_some() { (0, 1) } else { (ctx.shard, ctx.nshards) };
     ctx.mark(0, 0, b"C14 arithmetic");
     if shard == 0 {
@@ -359,7 +360,8 @@ pub fn replay(j: &J) -> (bool, String) {
 }
 
 pub fn info(tier: Tier) -> CheckInfo {
-    let thorough = tier == Tier::Thorough;
+    let _ = tier;
+    let thorough = true;
     CheckInfo {
         id: "C14",
         level: "model_checking",
